@@ -51,6 +51,7 @@ class Property:
     jobs = {"quick": 4, "thorough": 16}
     exhaustive = {"quick": False, "thorough": False}
     case_timeout_s = 120
+    anchors = ()  # "module:qualname" of the code the property is anchored in (evidence only)
 
     def n_cases(self, tier):
         return self.cases[tier]
@@ -159,14 +160,29 @@ class Agg:
 
 
 def run_range(prop, tier, seed, indices):
+    from . import anchors  # pylint: disable=import-outside-toplevel
+
     agg = Agg()
+    missing = anchors.start(prop.anchors)
+    for spec in missing:
+        agg.notes["anchor not found (renamed?): " + spec] = 1
+    before = anchors.snapshot()
+    try:
+        _run_range(prop, tier, seed, indices, agg)
+    finally:
+        after = anchors.snapshot()
+        for k, v in after.items():
+            agg.counters["anchor_calls " + k] = agg.counters.get("anchor_calls " + k, 0) + v - before.get(k, 0)
+    return agg
+
+
+def _run_range(prop, tier, seed, indices, agg):
     for i in indices:
         spec = prop.gen(case_rng(seed, prop.id, i), i, tier)
         if spec is None:
             continue
         out = run_one(prop, spec)
         agg.add(i, spec, out)
-    return agg
 
 
 def load_prop(pid):
@@ -267,6 +283,9 @@ def parent(prop, tier, seed):
             known_lines.append(line)
     for i, s in agg.errors[:3]:
         inconclusive.append(f"monitor error in case {i}: {s[-300:]}")
+    for k, v in agg.counters.items():
+        if k.startswith("anchor_calls ") and v == 0:
+            inconclusive.append(f"anchored code never executed: {k[len('anchor_calls '):]}")
     gaps = prop.coverage_gaps(agg.counters, tier)
     inconclusive.extend(f"coverage gap: {g}" for g in gaps)
     need = prop.min_nontrivial[tier]
